@@ -1630,7 +1630,7 @@ func (c *control) dirIter(colon, at bool, params []any) {
 	var atLeastOnce bool
 	c.pos = pos + 2
 	// If terminated by ~:}...
-	if c.pos < len(c.str) && c.str[c.pos] == '}' {
+	if c.str[pos+1] == ':' {
 		c.pos++
 		atLeastOnce = true
 	}
